@@ -23,6 +23,16 @@ UFUNC = {"numpy.add": "Add", "numpy.subtract": "Sub", "numpy.multiply": "Mult", 
 NOT_NONE_TAGS = ("ref", "dref", "objident", "tuple", "list", "fn", "ext", "mod", "rmod", "pool", "results", "bin", "cmp", "dictc", "lv", "alloc", "fstr", "iterd")
 
 
+def test_dump(node):
+    """spelling of a test with its polarity removed: `not t`, `a != b`, `a is not b` dump like `t`, `a == b`, `a is b`"""
+    while isinstance(node, ast.UnaryOp) and isinstance(node.op, ast.Not):
+        node = node.operand
+    if isinstance(node, ast.Compare) and len(node.ops) == 1:
+        op = {ast.NotEq: "Eq", ast.IsNot: "Is", ast.NotIn: "In"}.get(type(node.ops[0]), type(node.ops[0]).__name__)
+        return f"{op}({ast.dump(node.left)},{ast.dump(node.comparators[0])})"
+    return ast.dump(node)
+
+
 def carries_fn(v):
     """a function / pool / result iterator as a value (possibly inside a literal tuple or a merged value), not as the head of a call term"""
     if is_tag(v, "fn", "pool", "poolattr", "results"):
@@ -175,6 +185,7 @@ class Sim:
         self.none_uses = []        # (ctx, node, text)
         self.unbound = []          # (ctx, node, name, function): process global assigned without `global`
         self.relem_uses = []       # (ctx, node): a value yielded by the result iterator handed to a call
+        self.atom_nodes = {}       # atom -> spellings (normalised dumps) of the tests that consulted it
         self.attr_stores = []      # (ctx, node)
         self.depth = 0
         self.cur_node = None
@@ -387,7 +398,14 @@ class Sim:
             return False
         if isinstance(node, ast.UnaryOp) and isinstance(node.op, ast.Not):
             return not self.decide(node.operand, fr)
-        return self.decide_term(self.snap(self.ev(node, fr)))
+        t = self.snap(self.ev(node, fr))
+        try:
+            atom, pol = self.norm_atom(t)
+            if pol is not None:
+                self.atom_nodes.setdefault(atom, set()).add(test_dump(node))
+        except Exception:  # noqa
+            pass
+        return self.decide_term(t)
 
     def resolve(self, t):
         """phi terms whose condition has been decided on this path"""
